@@ -46,6 +46,10 @@ class Z3Env:
             self.side.append(v >= _rv(info['lo']))
         if info.get('hi') is not None:
             self.side.append(v <= _rv(info['hi']))
+        if info.get('gt') is not None:
+            self.side.append(v > _rv(info['gt']))
+        if info.get('lt') is not None:
+            self.side.append(v < _rv(info['lt']))
         if info.get('integer'):
             self.side.append(z3.IsInt(v))
         if name in ctx.derived_def:
@@ -216,27 +220,44 @@ def _z3num(mv):
 
 
 def check_equal(ctx, lhs, rhs, pathcond=None, timeout_s=60, want_smt2=False):
-    """Decide  forall atoms: pre & path -> lhs == rhs  (complex Sx values).
+    return check_equal_many(ctx, [(lhs, rhs)], pathcond, timeout_s, want_smt2)
 
-    Returns dict(status = 'unsat' (holds) | 'sat' | 'unknown', env = counterexample values, n_components, smt2?)."""
-    lhs = Sx.const(lhs, ctx)
-    rhs = Sx.const(rhs, ctx)
-    M = common_M(lhs, rhs)
-    cl = components(lhs, M)
-    cr = components(rhs, M)
-    keys = set(cl) | set(cr)
+
+def check_equal_many(ctx, pairs, pathcond=None, timeout_s=60, want_smt2=False):
+    """Decide  forall atoms: pre & path -> AND_i lhs_i == rhs_i  (complex Sx values).
+
+    Each side is reduced to its components over (content monomial, symbolic phasor, cyclotomic basis element);
+    two values are equal as functions iff all components (rational functions of the parameter atoms, possibly with
+    derived atoms constrained by their definitions) are equal.  The negation -- some component differs -- is what
+    the solver is asked to satisfy.
+    Returns dict(status = 'unsat' (holds) | 'sat' | 'unknown', env = counterexample values, ...)."""
     env = Z3Env(ctx)
     disj = []
     nontrivial = 0
-    for key in keys:
-        a = cl.get(key, ctx.K0)
-        b = cr.get(key, ctx.K0)
-        # a/ad != b/bd  <=>  a.numer*b.denom != b.numer*a.denom   (denominators assumed non-zero)
-        an, ad = env.poly(a.numer), env.poly(a.denom)
-        bn, bd = env.poly(b.numer), env.poly(b.denom)
-        disj.append(an * bd != bn * ad)
-        if a != b:
-            nontrivial += 1
+    ncomp = 0
+    seen = set()
+    for lhs, rhs in pairs:
+        lhs = Sx.const(lhs, ctx)
+        rhs = Sx.const(rhs, ctx)
+        if lhs is rhs:
+            continue
+        M = common_M(lhs, rhs)
+        cl = components(lhs, M)
+        cr = components(rhs, M)
+        for key in set(cl) | set(cr):
+            a = cl.get(key, ctx.K0)
+            b = cr.get(key, ctx.K0)
+            ncomp += 1
+            if a != b:
+                nontrivial += 1
+            sig = (a, b)
+            if sig in seen:
+                continue
+            seen.add(sig)
+            # a.n/a.d != b.n/b.d  <=>  a.n*b.d != b.n*a.d   (denominators assumed non-zero)
+            an, ad = env.poly(a.numer), env.poly(a.denom)
+            bn, bd = env.poly(b.numer), env.poly(b.denom)
+            disj.append(an * bd != bn * ad)
     s = _new_solver(timeout_s)
     cons = []
     for b in ctx.pre:
@@ -248,7 +269,7 @@ def check_equal(ctx, lhs, rhs, pathcond=None, timeout_s=60, want_smt2=False):
     s.add(z3.Or(*disj) if disj else z3.BoolVal(False))
     s.add(*env.all_side())
     r, dt = _run(s)
-    out = {'status': r, 'n_components': len(keys), 'syntactic_mismatch': nontrivial, 'time_s': dt,
+    out = {'status': r, 'n_components': ncomp, 'syntactic_mismatch': nontrivial, 'time_s': dt,
            'atoms': len(env.vars)}
     if want_smt2:
         out['smt2'] = s.to_smt2()
